@@ -75,8 +75,15 @@ def step (_s : Unit) (ts : List String) : Unit × String :=
     | _ => "bad-op"
   ((), r)
 
-/-- stream `node`: stateful whole-chain view (`ninit …` then one `nb <number> <timestamp> <uncles>` per block) -/
-def stepNode (st : Option ChainSt) (ts : List String) : Option ChainSt × String :=
+/-- stream `node`: stateful whole-chain view (`ninit …`, then per block of the followed branch
+`nb <number> <timestamp> <uncles>`; `nv <epoch field> <compact>`: a candidate child of the tip offered to
+the contextual `EpochVerifier`, state unchanged; `nrewind <k>`: continue on the branch that forks off
+`k` blocks below the tip — the states of the last blocks are kept) -/
+structure NodeSt where
+  cur : Option ChainSt := none
+  hist : List ChainSt := []
+
+def stepNode (st : NodeSt) (ts : List String) : NodeSt × String :=
   match ts with
   | op :: args =>
     match parseNats? args with
@@ -84,11 +91,13 @@ def stepNode (st : Option ChainSt) (ts : List String) : Option ChainSt × String
     | some a =>
       match op, a with
       | "ninit", [T, initial, halving, ortN, ortD, base, rem, hr, len, compact, gts] =>
-        (some { P := { T, initial, halving, ortN, ortD },
-                cur := { number := 0, base, rem, prevHR := hr, start := 0, length := len, compact },
-                lastEndTs := gts, lastEndTU := 0, tu := 0, tipNumber := 0, tipTs := gts }, "ok")
+        let s0 : ChainSt :=
+          { P := { T, initial, halving, ortN, ortD },
+            cur := { number := 0, base, rem, prevHR := hr, start := 0, length := len, compact },
+            lastEndTs := gts, lastEndTU := 0, tu := 0, tipNumber := 0, tipTs := gts }
+        ({ cur := some s0, hist := [] }, "ok")
       | "nb", [number, t, nunc] =>
-        (match st with
+        (match st.cur with
          | none => (st, "bad-op")
          | some s =>
            if number ≠ s.tipNumber + 1 then (st, "bad-op") else
@@ -97,13 +106,27 @@ def stepNode (st : Option ChainSt) (ts : List String) : Option ChainSt × String
            | some (s', field, compact, head) =>
              let e := s'.cur
              let tail := if head then s!" E {e.number} {e.base} {e.rem} {hx e.prevHR} {e.start} {e.length}" else ""
-             (some s', s!"{field} {compact}{tail}"))
+             ({ cur := some s', hist := (s :: st.hist).take 4096 }, s!"{field} {compact} R {optNat (tipBlockReward s')}{tail}"))
+      | "nv", [hEpoch, hCompact] =>
+        (match st.cur with
+         | none => (st, "bad-op")
+         | some s =>
+           (st, match chainVerify s hEpoch hCompact with
+                | none => "fail"
+                | some .ok => "ok"
+                | some .numberMismatch => "number-mismatch"
+                | some .targetMismatch => "target-mismatch"))
+      | "nrewind", [k] =>
+        if k = 0 then (st, "ok") else
+        (match st.hist.drop (k - 1) with
+         | s :: rest => ({ cur := some s, hist := rest }, "ok")
+         | [] => (st, "bad-op"))
       | _, _ => (st, "bad-op")
   | _ => (st, "bad-op")
 
 def main (args : List String) : IO UInt32 :=
   match args with
-  | ["node"] => runLines (none : Option ChainSt) stepNode
+  | ["node"] => runLines ({} : NodeSt) stepNode
   | _ => runLines () step
 
 end CkbVerif.Driver.C07
